@@ -44,7 +44,7 @@ PROPS = {
     'C16': dict(
         technique='Kani function-contract style proofs on the real assemble/encode (loop-free, full symbolic domain => complete), oracle decoder + VM step; native bounded stand-in for opcode-extension bits',
         level_text='Deductive proof per instruction shape: every obligation generated from the current source of assemble/encode/op_size is discharged by CBMC over the whole input domain (no bound). Extension bits (QM31/Blake2s) of encode and BigInt equality of the immediate word are bounded native checks, reported separately.',
-        level_note='Trusted: the oracle (spec_decode/vm_step written from the Cairo machine definition), cairo-vm executing decoded instructions accordingly, Kani/CBMC, num-bigint run as real code. Bounded: opcode-extension bits and words[1]==imm over boundary offsets/4 immediates.',
+        level_note='Trusted: the oracle (spec_decode/vm_step written from the Cairo machine definition), cairo-vm executing decoded instructions accordingly, Kani/CBMC, num-bigint run as real code. Bounded: opcode-extension bits and words[1]==imm over boundary offsets/4 immediates; the layout compile() produces (relative targets land on instructions / ret words, hints at the pc of their instruction) only on the compiled corpus (n_c16_layout).',
         scope='Every CASM instruction shape the toolchain can emit: the word produced by assemble().encode() decodes (layout oracle) and '
               'executes (state-transition oracle) to exactly the meaning of the CASM text, for both registers, all 2^16 values of every '
               'offset, inc_ap, and any (pc, ap, fp); size == op_size == 1 + has_immediate.',
